@@ -1474,7 +1474,11 @@ func (eval Evaluator) Rescale(op0, opOut *rlwe.Ciphertext) (err error) {
 	level := op0.Level()
 	ringQ := eval.parameters.RingQ().AtLevel(level)
 
-	for i := range opOut.Value {
+	// The receiver takes the degree of the operand (a receiver of larger degree used to index op0 out of range,
+	// a receiver of smaller degree silently dropped components).
+	opOut.Resize(op0.Degree(), opOut.Level())
+
+	for i := range op0.Value {
 		ringQ.DivRoundByLastModulusNTT(op0.Value[i], eval.buffQ[0], opOut.Value[i])
 	}
 
